@@ -64,7 +64,7 @@ META = dict(
          "member sub-menu]; inputs: product series of 28 calendar-edge instants x 17 values x 7 depths in 3 orders, "
          "the same with all depths missing and with zinp=None, + every sequence of length<=2 over an 18-triple "
          "alphabet; the same configuration object (list of dicts / ClimatologyConfig) used for a second call; each state = one call of the real climatology_test judged per point by the scalar reference "
-         "Scale: the 3332-point product series also in chronological and reverse chronological order (time-ordered record), 12- and 40-member lists. (datetime.isocalendar etc.). non-trivial = reference demands a flag other than UNKNOWN somewhere",
+         "(datetime.isocalendar etc.). Scale: the 3332-point product series also in chronological and reverse chronological order (time-ordered record), 12- and 40-member lists. non-trivial = reference demands a flag other than UNKNOWN somewhere",
     bounds={"quick": {"members_per_list": 2, "menu": 135, "instants": len(TIMES), "values": len(XV), "depths": len(ZV)},
             "thorough": {"members_per_list": "2 (menu 81) and 3 (sub-menu 12)", "instants": len(TIMES)}},
     not_judged=["points whose value is missing (C02)"],
